@@ -305,6 +305,34 @@ CHECKS = {
          "seeds). Block layout is compared as evidence only; the verdict uses limits, outcome and content. Open finding F7a (object "
          "> 5 % of the blob limit after a nearly full block) is reported as KNOWN-FINDING.",
     technique="TLA+ spec + TLC design check; TLC-exported behaviours replayed on the real Writer/Reader pair; independent format-limit parser"),
+
+ "C10": dict(
+    category="model_checking",
+    text="specs/AreaGrid.tla states the property declaratively on an integer grid with exact integer predicates: segments of the "
+         "ways mod 2, Crosses/Overlaps by cross products, ValidArrangement (non-empty, all degrees even, no crossing/overlap/"
+         "end-in-interior), even-odd Region by ray casting from generic sample points, and Judge = the set of violated "
+         "requirements of an observed result (assembled/rejected, rings closed, >= 4 points, no repeated point, no conflict "
+         "among ring segments, orientation, inner inside and attached to the innermost outer, region of the multipolygon = "
+         "even-odd fill, ring segments = input segments, problem counts in area_stats and ProblemReporter). A case-builder "
+         "state machine draws catalogue rings (rect/tri/L/T/diamond/kite, dense variants, G=4/5, nested chains on G=7), damages "
+         "the segment bag, and re-draws the same bag as every possible set of ways (member order, direction, cutting, through "
+         "touching points) x role patterns; TLC proves bag conservation and the A-layer's consistency theorems (ray "
+         "independence, XOR of ring fills, cancellation, Judge accepts the reference answer and rejects spoiled ones, tiling "
+         "theorem) exhaustively for small constants and exports cases with expected verdicts by simulation. "
+         "harness/area_replay.cpp runs the real Assembler (way entry, relation entry, MultipolygonManager pipeline; 5 configs; "
+         "5 affine embeddings into Locations up to +-2^29; shared/distinct node ids) and only logs rings, return value, stats "
+         "and reporter calls; the log goes back to TLC (specs/AreaGridTrace.tla) which evaluates Judge per observation and "
+         "invariance of the ring set within each group of cases over the same segment set. Chains of up to 101 copies of a "
+         "TLC-chosen motif (100 touching points) are judged copy by copy.",
+    design_ref="DESIGN.md section 4, C10",
+    note="Small grids (G=4/5, 7 for nested rectangles), <= 3 (4) catalogue rings and <= 26 segments per case, cases sampled by "
+         "TLC simulation (not exhaustive); region/inside are decided on 2G x 2G generic sample points (exact per point; with "
+         "'ring segments = input segments' exact for the catalogue); connectedness of polygon interiors is not required by the "
+         "property and not checked (a min/max candidate swap in join_connected_rings yields different but still valid output); "
+         "problem counts are compared exactly (intersections = conflicting pairs, open ends = odd points, touching points = "
+         "degree >= 4). Open finding F10a: long chains of touching rings are silently rejected (find_candidates max_depth 20).",
+    technique="TLA+ declarative spec + TLC design check; TLC-exported cases run on the real Assembler; observed rings validated "
+              "by TLC against the spec's oracle (trace validation), invariance by grouping over segment sets"),
 }
 
 NOT_APPLICABLE = {
